@@ -21,7 +21,8 @@ for seed in sorted(res):
     prop, r = best
     if r.get("exit") == 1:
         caught += 1
-    obl = "; ".join(o.split(":", 1)[-1] for o in r.get("obligations", [])[:2])
+    obs = sorted(r.get("obligations", []), key=lambda o: (o.startswith(("bounded/", "syntactic/")), o))
+    obl = "; ".join(o.split(":", 1)[-1] for o in obs[:2])
     how = r["outcome"] + (" (replayed on the real code)" if r.get("replayed_on_real_code") else (" (`no-failing-input-found`)" if r.get("exit") == 1 else ""))
     rows.append(f"| {seed} | {files} | {prop} | {how} | {obl[:110]} |")
 table = ["| seed | touches | check | outcome | failed obligation(s) |", "|------|---------|-------|---------|----------------------|"] + rows
